@@ -578,7 +578,8 @@ class LeviCivitaTensor(BoundTensor):
             array[tuple(indices)] = np.prod(diff, axis=0)
 
             self._cache[size] = array
-        super().__init__(array, covariant=bool(covariant), copy=False)
+        # the cached array is shared by all instances: hand out a copy, item assignment must not reach the cache
+        super().__init__(array, covariant=bool(covariant), copy=True)
 
 
 class KroneckerDelta(BoundTensor):
@@ -631,7 +632,7 @@ class KroneckerDelta(BoundTensor):
             f = np.vectorize(calc)
             array = np.fromfunction(f, tuple(2 * p * [n]), dtype=int)
 
-        super().__init__(array, covariant=range(p), copy=False)
+        super().__init__(array, covariant=range(p), copy=True)
 
 
 class TensorDiagram:
